@@ -65,7 +65,6 @@ func Catalogue(tier string) []core.System {
 			&WSystem{name: "map-t3", NM: 2, Maps: true, T: 3, Sets: []int{0, 1, 2, 3}, Advs: []int{1, 2}, Vlans: []int{5, 4094}},
 			&WSystem{name: "full-1", NM: 2, Maps: true, T: 1, Full: 1, Sets: []int{0}},
 			&GSystem{name: "gw-reuse-2", NM: 2, NIP: 2, L: 2, GP: 2, Portal: true, Reuse: true, Advs: []int{1}},
-			&GSystem{name: "gw-3", NM: 3, L: 2, GP: 1, Portal: true, Advs: []int{1}},
 			&GSystem{name: "gw-grace-long", NM: 2, L: 1, GP: 3, Portal: true, Advs: []int{1, 2}},
 		)
 	}
@@ -141,7 +140,7 @@ func TestExplore(t *testing.T) {
 	nchains, chainLen := 6, 150
 	if tier == "thorough" {
 		maxNodes = 60000
-		nchains, chainLen = 40, 400
+		nchains, chainLen = 30, 300
 	}
 	bundle := &core.Bundle{}
 	st := runStats{PerSystem: map[string][3]int{}, KernelMaps: true}
